@@ -36,7 +36,9 @@ NAMES = ["n1", "n2"]
 SOURCES = ["s1.csv", "s2.csv"]
 _BIG = "id,amount\n" + "".join(f"{i},{i * 7 % 1000}\n" for i in range(9000))   # ~80 KiB
 # c1: a small CRLF export with a line break inside a quoted cell and no final newline; c2/c3: LF, ~80 KiB
-CONTENTS = {"c1": 'a,b\r\n1,"x\r\ny"\r\n2,3', "c2": _BIG + "last,1\n", "c3": _BIG + "last,2\n"}
+CONTENTS = {"c1": 'a,b\r\n1,"x\r\ny"\r\n2,3', "c2": _BIG + "last,1\n", "c3": _BIG + "last,2\n",
+            "c0": ""}   # c0 (a zero-byte file) is used by drawn sequences only
+ENUM_CONTENTS = ["c1", "c2", "c3"]
 WALL_BUDGET_S = {"quick": 150, "thorough": 1500}
 
 
@@ -44,14 +46,15 @@ def budget(tier):
     return 400 if tier == "quick" else 6000
 
 
-def _ops():
+def _ops(contents=None):
+    contents = contents or ENUM_CONTENTS
     ops = []
     for n in NAMES:
         for s in SOURCES:
-            for c in CONTENTS:
+            for c in contents:
                 ops.append(["add", n, s, c])
     for s in SOURCES:
-        for c in CONTENTS:
+        for c in contents:
             ops.append(["mutate", s, c])
     for n in NAMES:
         ops.append(["remove", n])
@@ -71,7 +74,7 @@ def canonical(seq):
             n, s, c = op[1], None, None
         else:
             continue
-        for v, seen, order in ((n, seen_n, NAMES), (s, seen_s, SOURCES), (c, seen_c, list(CONTENTS))):
+        for v, seen, order in ((n, seen_n, NAMES), (s, seen_s, SOURCES), (c, seen_c, ENUM_CONTENTS)):
             if v is None or v in seen:
                 continue
             if v != order[len(seen)]:
@@ -109,7 +112,7 @@ def actual_source(source, content):
 
 
 def strategy(tier):
-    op = st.sampled_from(_ops())
+    op = st.sampled_from(_ops(ENUM_CONTENTS + ["c0"]))
     return st.builds(
         lambda s, m: {"ops": [list(o) for o in s], **({"srcmap": m} if m else {})},
         st.lists(op, min_size=6, max_size=25), st.sampled_from(SRC_SHAPES))
